@@ -26,6 +26,12 @@ LDiffV(f, a, b, d) == [t |-> "ld", f |-> f, a |-> a, b |-> b, d |-> d]   \* addr
 (* "variable treated as 8-bit (16-bit) value"; the engines disagree on the other bytes (the interpreter and -O0/-O1 code keep the old  *)
 (* ones, -O2 code assigns the extension of the stored value), so they are undefined here; after a 4-byte store the h flag says the same *)
 NarrowV(w, n) == [t |-> "nv", w |-> w, n |-> n]
+(* A global variable tied to a hard register (`global i64:gv:r15`) is one object shared by all functions that declare it.  It is kept in  *)
+(* memory block GlobBlk; before the program writes it, it holds whatever the native caller left in the register: an opaque value that  *)
+(* may only be copied (a function saves it on entry and puts it back before it returns).                                               *)
+GlobBlk == 6
+OpaqueV == [t |-> "op"]
+OpaqueCells == [j \in 1..8 |-> [k |-> "op", i |-> j]]
 StackMarkV(fid, n) == [t |-> "sm", fid |-> fid, n |-> n]      \* what bstart saves: the activation and the number of memory blocks at that time
 RegAddrV(fid, r, n) == [t |-> "ra", fid |-> fid, r |-> r, n |-> n]   \* address of variable r of the activation fid (addr insns); n bytes may be accessed
 FnV(f) == [t |-> "fn", f |-> f]                 \* address of function f (a reference operand); never observable as a number
@@ -59,6 +65,7 @@ LoadMem(mem, ty, b, o) ==
             THEN IntV(ExtTy(ty, BytesWord([i \in 1..n |-> cs[i].v])))
             ELSE IF ty \in {"i64", "u64", "p"} /\ \A i \in 1..n : cs[i].k = "p" /\ cs[i].i = i /\ cs[i].b = cs[1].b /\ cs[i].o = cs[1].o
                  THEN PtrV(cs[1].b, cs[1].o)
+                 ELSE IF ty = "i64" /\ \A i \in 1..n : cs[i].k = "op" /\ cs[i].i = i THEN OpaqueV
                  ELSE IF ty \in {"i64", "u64", "p"} /\ \A i \in 1..n : cs[i].k = "fnc" /\ cs[i].i = i /\ cs[i].f = cs[1].f
                  THEN FnV(cs[1].f)                                    \* ref data item naming a function
                  ELSE IF ty \in {"i64", "u64", "p"} /\ \A i \in 1..n : cs[i].k = "l" /\ cs[i].i = i /\ cs[i].f = cs[1].f /\ cs[i].l = cs[1].l
@@ -70,6 +77,8 @@ StoreMem(mem, ty, b, o, v) ==       \* returns [ok, m, why]
   LET n == TySize(ty) IN
   IF ~InBlock(mem, b, o, n) THEN [ok |-> FALSE, m |-> mem, why |-> "store out of bounds or dead block"]
   ELSE IF v.t = "p" /\ n # 8 THEN [ok |-> FALSE, m |-> mem, why |-> "narrow store of a pointer"]
+  ELSE IF v.t = "op" THEN (IF b = GlobBlk /\ n = 8 THEN [ok |-> TRUE, why |-> "", m |-> [mem EXCEPT ![b].cells = OpaqueCells]]
+                           ELSE [ok |-> FALSE, m |-> mem, why |-> "opaque register contents stored to memory"])
   ELSE IF v.t \in {"l", "fn", "ld", "ra", "sm"} THEN [ok |-> FALSE, m |-> mem, why |-> "label, function or variable address stored to memory"]
   ELSE LET new == IF IsFpTy(ty) THEN [i \in 1..n |-> FpC(ty, i, v.x)]
                   ELSE IF v.t = "p" THEN [i \in 1..n |-> [k |-> "p", i |-> i, b |-> v.b, o |-> v.o]]
@@ -149,6 +158,7 @@ Eval(regs, mm, op) ==
     [] op.k = "ref" -> FnV(op.f)
     [] op.k = "dref" -> PtrV(op.b, 0)                   \* address of a module-level data/bss item (a fixed memory block)
     [] op.k = "blk" -> RegVal(regs, op.r)               \* block argument: the register holds the block's address
+    [] op.k = "greg" -> LoadMem(mm, "i64", GlobBlk, 0)  \* the global variable tied to a hard register
     [] op.k = "mem" -> LET a == Addr(regs, op) IN IF IsBad(a) THEN a ELSE IF a.t = "ra" THEN LoadReg(a, op.ty) ELSE LoadMem(mm, op.ty, a.b, a.o)
 
 (* integer value expected: pointers are not numbers; AsInt needs all 64 bits, AsInt32 only the low half *)
@@ -183,6 +193,12 @@ WriteDst(dst, v, pc2, ovf2) ==
   IF dst.k = "reg"
   THEN /\ frames' = SetTop([Top EXCEPT !.regs[dst.r] = v, !.pc = pc2, !.ovf = ovf2])
        /\ UNCHANGED <<prog, mem, log, status, why, result>>
+  ELSE IF dst.k = "greg"
+  THEN LET m2 == StoreMem(mem, "i64", GlobBlk, 0, v) IN
+       IF ~m2.ok THEN GoUndef(m2.why)
+       ELSE /\ mem' = m2.m
+            /\ frames' = SetTop([Top EXCEPT !.pc = pc2, !.ovf = ovf2])
+            /\ UNCHANGED <<prog, log, status, why, result>>
   ELSE LET a == Addr(Top.regs, dst) IN
        IF IsBad(a) THEN GoUndef(a.why)
        ELSE IF a.t = "ra"
